@@ -265,6 +265,8 @@ package mqtt
 // verif:func mqtt.Server.processPubrec modifies=all
 //@ ensures table-object-kept: cl.State.Inflight == old(cl.State.Inflight)
 //@ requires validCl(cl) && validSrv(s)
+// the PUBREC is on record before the PUBREL is written: if that write fails, the session still resumes with PUBREL, not with the PUBLISH
+//@ ensures C09-a-received-pubrec-is-recorded-whatever-happens-to-the-pubrel: old(hasT(cl, pk.PacketID, Publish)) && pk.ReasonCode == 0 ==> hasT(cl, pk.PacketID, Pubrel)
 //@ ensures C09-pubrel-follows-pubrec: old(hasT(cl, pk.PacketID, Publish)) && pk.ReasonCode == 0 && r0 == nil ==> sentOne(cl) && lastSent(cl).FixedHeader.Type == Pubrel && lastSent(cl).PacketID == pk.PacketID && hasT(cl, pk.PacketID, Pubrel)
 //@ ensures C09-other-ids-untouched: forall k uint16 :: k != pk.PacketID ==> (has(ifl(cl), k) <==> old(has(ifl(cl), k))) && ifl(cl)[k] == old(ifl(cl)[k])
 //@ ensures C10-inbound-record-kept: old(hasT(cl, pk.PacketID, Pubrec)) ==> hasT(cl, pk.PacketID, Pubrec) && ifl(cl)[pk.PacketID] == old(ifl(cl)[pk.PacketID])
